@@ -409,6 +409,9 @@ def classify (st : State) (sp : Store) (tn : Taints) (op : Op) (exp got : Resp) 
     if n < 1 then (5, "fs:part-number-not-validated") else shapeOr generic
   | .uploadPartCopy _ _ _ _ n .., .err .InvalidArgument, .part _ =>
     if n < 1 ∨ n > 10000 then (5, "fs:part-number-not-validated") else (5, "fs:part-copy-range-unchecked")
+  -- a range the store refuses that the backend computes with (a position beyond the end: `seek` or the length fail)
+  | .uploadPartCopy _ _ _ _ n _ _ (some _), .err .InvalidArgument, .err .InternalError =>
+    if n < 1 ∨ n > 10000 then shapeOr generic else (5, "fs:part-copy-range-unchecked")
   | .uploadPartCopy .., .err .NoSuchBucket, .err .NoSuchKey => (2, "fs:missing-bucket-reported-as-missing-key")
   -- the same parts, but the real answer was not in ascending part-number order
   | .listParts .., .parts a, .parts b => if a = b then (2, "fs:list-parts-unordered") else shapeOr generic
